@@ -679,3 +679,349 @@ Proof.
   - intros k Hk. replace (pri y) with (P l 0) by (unfold P; now injection K).
     now apply (root_min l (length l) H).
 Qed.
+
+(* ------------------------------------------------------------------ Remove *)
+Lemma remove_finish : forall l i m l1 l2 c c',
+  length l = S m -> length l1 = S m -> key (get l1 m) = key (get l i) ->
+  Permutation (keys l1) (keys l) -> (wf_idx l -> wf_idx l1) -> swaps m l1 l2 ->
+  let '(x, l3) := take_last l2 in
+  removed (mkPq l c) i x (mkPq l3 c') /\ (wf_idx l -> wf_idx l3) /\
+  (heap l2 m -> heap l3 (length l3)).
+Proof.
+  intros l i m l1 l2 c c' L L1 K Pm Wf Sw.
+  pose proof (take_last_spec l1 l2 m L1 Sw) as T.
+  destruct (take_last l2) as [x l3].
+  destruct T as [T1 [T2 [T3 [T4 [T5 [T6 _]]]]]].
+  unfold removed. cbn [arr]. repeat split.
+  - congruence.
+  - exact T3.
+  - etransitivity; [apply Permutation_sym, Pm | exact T4].
+  - lia.
+  - intro W. auto.
+  - rewrite T1. exact T6.
+Qed.
+
+Lemma heap_weaken : forall l n m, (m <= n)%nat -> heap l n -> heap l m.
+Proof. intros l n m Hm H k Hk. apply H. lia. Qed.
+
+(* the array part of Remove(i) for i < n-1, both variants:
+     inFlightPqueue:   down(i,n-1); up(i)
+     container/heap:   if !down(i,n-1) { up(i) }                         *)
+Lemma remove_mid : forall ch, choose_ok ch -> forall l i m, length l = S m -> (i < m)%nat ->
+  let l1 := swap l i m in
+  let d := down ch (S m) l1 i m in
+  forall l2, (l2 = up (S i) (fst d) i \/ ((i < snd d)%nat /\ l2 = fst d)) ->
+  swaps m l1 l2 /\ (heap l (S m) -> heap l2 m).
+Proof.
+  intros ch CH l i m L Hi l1 d l2 Hl2.
+  assert (L1 : length l1 = S m) by (subst l1; now rewrite length_swap).
+  assert (Sd : swaps m l1 (fst d)) by (subst d; apply down_swaps; lia).
+  pose proof (swaps_length _ _ _ Sd) as Ld.
+  split.
+  - destruct Hl2 as [->|[_ ->]]; [|exact Sd].
+    eapply swaps_trans; [exact Sd|].
+    apply swaps_mono with (m := S i); try lia. apply up_swaps. lia.
+  - intro H.
+    destruct (removal_mid ch CH l i m (S m) L Hi ltac:(lia) H) as [A B].
+    fold l1 in A, B. fold d in A, B.
+    destruct Hl2 as [->|[Mv ->]]; [|now apply B].
+    apply up_heap; try lia. exact A.
+Qed.
+
+Lemma if_remove_shape : forall q i,
+  if_remove q i =
+    if ((i <? 0) || (Z.of_nat (length (arr q)) <=? i))%Z then None
+    else
+      let n := length (arr q) in
+      let i' := Z.to_nat i in
+      let l2 := if (n - 1 =? i')%nat then arr q
+                else up (S i') (fst (down if_choose n (swap (arr q) i' (n - 1)) i' (n - 1))) i' in
+      Some (fst (take_last l2), mkPq (snd (take_last l2)) (cap q)).
+Proof.
+  intros q i. unfold if_remove.
+  destruct ((i <? 0) || (Z.of_nat (length (arr q)) <=? i))%Z; [reflexivity|].
+  cbv zeta. destruct (take_last _); reflexivity.
+Qed.
+
+Theorem if_remove_any : forall q i x q', if_remove q i = Some (x, q') ->
+  (0 <= i < Z.of_nat (length (arr q)))%Z /\ removed q (Z.to_nat i) x q' /\
+  (wf_idx (arr q) -> wf_idx (arr q')) /\
+  (heap (arr q) (length (arr q)) -> heap (arr q') (length (arr q'))).
+Proof.
+  intros [l c] i x q' E. rewrite if_remove_shape in E. cbn [arr cap] in *.
+  destruct ((i <? 0) || (Z.of_nat (length l) <=? i))%Z eqn:R; [discriminate|].
+  split; [lia|]. cbv zeta in E.
+  set (i' := Z.to_nat i) in *.
+  assert (Hi : (i' < length l)%nat) by lia.
+  remember (length l) as n eqn:L. destruct n as [|m]; [lia|]. symmetry in L.
+  replace (S m - 1)%nat with m in E by lia.
+  destruct (Nat.eqb_spec m i') as [Em|Nm].
+  - (* the last slot: nothing moves *)
+    pose proof (remove_finish l i' m l l c c L L ltac:(now rewrite Em) (Permutation_refl _)
+                  (fun w => w) (sw_refl m l)) as F.
+    destruct (take_last l) as [y l3]. cbn [fst snd] in E. injection E as <- <-.
+    destruct F as [F1 [F2 F3]]. repeat split; try assumption; try apply F1.
+    cbn [arr]. intro H. apply F3. apply heap_weaken with (n := S m); [lia|exact H].
+  - assert (Him : (i' < m)%nat) by lia.
+    set (l1 := swap l i' m) in *.
+    set (d := down if_choose (S m) l1 i' m) in *.
+    set (l2 := up (S i') (fst d) i') in *.
+    destruct (remove_mid if_choose if_choose_ok l i' m L Him l2 (or_introl eq_refl)) as [Sw Hp].
+    fold l1 in Sw.
+    assert (L1 : length l1 = S m) by (subst l1; now rewrite length_swap).
+    assert (K1 : key (get l1 m) = key (get l i')).
+    { subst l1. rewrite key_swap by lia. now rewrite Nat.eqb_refl. }
+    pose proof (remove_finish l i' m l1 l2 c c L L1 K1 (swap_perm l i' m ltac:(lia) ltac:(lia))
+                  (swap_wf_idx l i' m ltac:(lia) ltac:(lia)) Sw) as F.
+    destruct (take_last l2) as [y l3]. cbn [fst snd] in E. injection E as <- <-.
+    destruct F as [F1 [F2 F3]]. repeat split; try assumption; try apply F1.
+    cbn [arr]. intro H. apply F3, Hp. exact H.
+Qed.
+
+Theorem if_remove_wf : forall q i x q', hwf q -> if_remove q i = Some (x, q') ->
+  hwf q' /\ removed q (Z.to_nat i) x q'.
+Proof.
+  intros q i x q' [H W] E. destruct (if_remove_any q i x q' E) as [_ [R [Wf Hp]]].
+  split; [split; auto | exact R].
+Qed.
+
+Theorem if_remove_defined : forall q i,
+  (0 <= i < Z.of_nat (length (arr q)))%Z <-> exists r, if_remove q i = Some r.
+Proof.
+  intros q i. rewrite if_remove_shape.
+  destruct ((i <? 0) || (Z.of_nat (length (arr q)) <=? i))%Z eqn:R; split.
+  - lia.
+  - intros [r X]. discriminate.
+  - intros _. eexists. reflexivity.
+  - lia.
+Qed.
+
+(* container/heap Remove *)
+Lemma ch_remove_core_any : forall q i x q', (i < length (arr q))%nat ->
+  ch_remove_core q i = (x, q') ->
+  removed q i x q' /\ (wf_idx (arr q) -> wf_idx (arr q')) /\
+  (heap (arr q) (length (arr q)) -> heap (arr q') (length (arr q'))).
+Proof.
+  intros [l c] i' x q' Hi E. unfold ch_remove_core in E. cbn [arr cap] in *.
+  cbv zeta in E.
+  remember (length l) as n eqn:L. destruct n as [|m]; [lia|]. symmetry in L.
+  replace (S m - 1)%nat with m in E by lia.
+  destruct (Nat.eqb_spec m i') as [Em|Nm].
+  - pose proof (remove_finish l i' m l l c (shrink c (S m)) L L ltac:(now rewrite Em) (Permutation_refl _)
+                  (fun w => w) (sw_refl m l)) as F.
+    destruct (take_last l) as [y l3]. injection E as <- <-.
+    destruct F as [F1 [F2 F3]]. repeat split; try assumption; try apply F1.
+    cbn [arr]. intro H. apply F3. apply heap_weaken with (n := S m); [lia|exact H].
+  - assert (Him : (i' < m)%nat) by lia.
+    set (l1 := swap l i' m) in *.
+    set (d := down ch_choose (S m) l1 i' m) in *.
+    set (l2 := if (i' <? snd d)%nat then fst d else up (S i') (fst d) i').
+    assert (E2 : (let '(l1, i'0) := d in if (i' <? i'0)%nat then l1 else up (S i') l1 i') = l2)
+      by (subst l2; destruct d; reflexivity).
+    rewrite E2 in E.
+    assert (Hl2 : l2 = up (S i') (fst d) i' \/ ((i' < snd d)%nat /\ l2 = fst d)).
+    { subst l2. destruct (Nat.ltb_spec i' (snd d)); [right; split; [lia|reflexivity] | left; reflexivity]. }
+    destruct (remove_mid ch_choose ch_choose_ok l i' m L Him l2 Hl2) as [Sw Hp].
+    fold l1 in Sw.
+    assert (L1 : length l1 = S m) by (subst l1; now rewrite length_swap).
+    assert (K1 : key (get l1 m) = key (get l i')).
+    { subst l1. rewrite key_swap by lia. now rewrite Nat.eqb_refl. }
+    pose proof (remove_finish l i' m l1 l2 c (shrink c (S m)) L L1 K1 (swap_perm l i' m ltac:(lia) ltac:(lia))
+                  (swap_wf_idx l i' m ltac:(lia) ltac:(lia)) Sw) as F.
+    destruct (take_last l2) as [y l3]. injection E as <- <-.
+    destruct F as [F1 [F2 F3]]. repeat split; try assumption; try apply F1.
+    cbn [arr]. intro H. apply F3, Hp. exact H.
+Qed.
+
+Theorem ch_remove_any : forall q i x q', ch_remove q i = Some (x, q') ->
+  (0 <= i < Z.of_nat (length (arr q)))%Z /\ removed q (Z.to_nat i) x q' /\
+  (wf_idx (arr q) -> wf_idx (arr q')) /\
+  (heap (arr q) (length (arr q)) -> heap (arr q') (length (arr q'))).
+Proof.
+  intros q i x q' E. unfold ch_remove in E.
+  destruct ((i <? 0) || (Z.of_nat (length (arr q)) <=? i))%Z eqn:R; [discriminate|].
+  split; [lia|]. apply ch_remove_core_any; [lia|congruence].
+Qed.
+
+Theorem ch_remove_wf : forall q i x q', hwf q -> ch_remove q i = Some (x, q') ->
+  hwf q' /\ removed q (Z.to_nat i) x q'.
+Proof.
+  intros q i x q' [H W] E. destruct (ch_remove_any q i x q' E) as [_ [R [Wf Hp]]].
+  split; [split; auto | exact R].
+Qed.
+
+Theorem ch_remove_defined : forall q i,
+  (0 <= i < Z.of_nat (length (arr q)))%Z <-> exists r, ch_remove q i = Some r.
+Proof.
+  intros q i. unfold ch_remove.
+  destruct ((i <? 0) || (Z.of_nat (length (arr q)) <=? i))%Z eqn:R; split.
+  - lia.
+  - intros [r X]. discriminate.
+  - intros _. eexists. reflexivity.
+  - lia.
+Qed.
+
+(* ------------------------------------------------------------------ PeekAndShift *)
+(* what a [peek] function must satisfy for the scan theorems *)
+Definition peek_never_early (peek : pq -> Z -> peek_res * pq) : Prop :=
+  forall q t x q', peek q t = (PeekSome x, q') ->
+    (pri x <= t)%Z /\ removed q 0 x q'.
+
+Definition peek_spec (peek : pq -> Z -> peek_res * pq) : Prop :=
+  forall q t, hwf q ->
+    match peek q t with
+    | (PeekNone _, q') => q' = q /\ forall k, (k < length (arr q))%nat -> (t < P (arr q) k)%Z
+    | (PeekSome x, q') =>
+        hwf q' /\ forall k, (k < length (arr q))%nat -> (pri x <= P (arr q) k)%Z
+    end.
+
+Lemma nonempty_cons : forall (l : list item) a r, l = a :: r -> l <> [].
+Proof. intros; subst; discriminate. Qed.
+
+Theorem if_peek_never_early : peek_never_early if_peek.
+Proof.
+  intros [l c] t x q' E. unfold if_peek in E. cbn [arr] in E.
+  destruct l as [|a r] eqn:EL; [discriminate|]. rewrite <- EL in *.
+  destruct (pri a >? t)%Z eqn:G; [discriminate|].
+  pose proof (pop_core_any if_choose l c (nonempty_cons _ _ _ EL)) as A. cbv zeta in A.
+  unfold if_pop_core in E. cbn [arr cap] in E. cbv zeta in E.
+  destruct (take_last _) as [y l3]. injection E as <- <-.
+  destruct A as [[K [I [Pm Ln]]] _]. cbn [arr] in *.
+  split.
+  - replace (pri y) with (pri a); [lia|]. rewrite EL in K. cbn in K. now injection K.
+  - repeat split; assumption.
+Qed.
+
+Theorem ch_peek_never_early : peek_never_early ch_peek.
+Proof.
+  intros [l c] t x q' E. unfold ch_peek in E. cbn [arr] in E.
+  destruct l as [|a r] eqn:EL; [discriminate|]. rewrite <- EL in *.
+  destruct (pri a >? t)%Z eqn:G; [discriminate|].
+  destruct (ch_remove_core {| arr := l; cap := c |} 0) as [y q1] eqn:R. injection E as <- <-.
+  destruct (ch_remove_core_any {| arr := l; cap := c |} 0%nat y q1 ltac:(cbn [arr]; rewrite EL; cbn; lia) R) as [Rm _].
+  split; [|exact Rm].
+  destruct Rm as [K _]. cbn [arr] in K. rewrite EL in K. cbn in K.
+  replace (pri y) with (pri a); [lia|]. now injection K.
+Qed.
+
+Theorem if_peek_spec : peek_spec if_peek.
+Proof.
+  intros [l c] t [H W]. unfold if_peek. cbn [arr] in *.
+  destruct l as [|a r] eqn:EL; [split; [reflexivity|cbn; intros; lia]|]. rewrite <- EL in *.
+  assert (Ra : a = get l 0) by (rewrite EL; reflexivity).
+  destruct (pri a >? t)%Z eqn:G.
+  - split; [reflexivity|]. intros k Hk.
+    pose proof (root_min l _ H k Hk). unfold P in *. rewrite <- Ra in *. lia.
+  - destruct (if_pop_core {| arr := l; cap := c |}) as [y q1] eqn:R.
+    assert (E : if_pop {| arr := l; cap := c |} = Some (y, q1)).
+    { unfold if_pop. cbn [arr]. rewrite EL. rewrite <- EL. now rewrite R. }
+    destruct (if_pop_wf {| arr := l; cap := c |} y q1 (conj H W) E) as [A [_ B]]. split; assumption.
+Qed.
+
+Theorem ch_peek_spec : peek_spec ch_peek.
+Proof.
+  intros [l c] t [H W]. unfold ch_peek. cbn [arr] in *.
+  destruct l as [|a r] eqn:EL; [split; [reflexivity|cbn; intros; lia]|]. rewrite <- EL in *.
+  assert (Ra : a = get l 0) by (rewrite EL; reflexivity).
+  destruct (pri a >? t)%Z eqn:G.
+  - split; [reflexivity|]. intros k Hk.
+    pose proof (root_min l _ H k Hk). unfold P in *. rewrite <- Ra in *. lia.
+  - destruct (ch_remove_core {| arr := l; cap := c |} 0) as [y q1] eqn:R.
+    destruct (ch_remove_core_any {| arr := l; cap := c |} 0%nat y q1 ltac:(cbn [arr]; rewrite EL; cbn; lia) R)
+      as [[K _] [Wf Hp]]. cbn [arr] in *.
+    split; [split; auto|].
+    intros k Hk. replace (pri y) with (P l 0) by (unfold P; now injection K).
+    now apply (root_min l _ H).
+Qed.
+
+(* on a well-formed heap PeekAndShift returns an entry whenever one is due *)
+Corollary peek_due : forall peek, peek_spec peek -> forall q t k, hwf q ->
+  (k < length (arr q))%nat -> (P (arr q) k <= t)%Z ->
+  exists x q', peek q t = (PeekSome x, q').
+Proof.
+  intros peek PS q t k Hq Hk Due. specialize (PS q t Hq).
+  destruct (peek q t) as [[d|x] q'].
+  - destruct PS as [_ A]. specialize (A k Hk). lia.
+  - eauto.
+Qed.
+
+(* ------------------------------------------------------------------ the scan loop *)
+Definition due (t : Z) (kx : Z * Z) : bool := (fst kx <=? t)%Z.
+Definition not_due (t : Z) (kx : Z * Z) : bool := negb (fst kx <=? t)%Z.
+
+Lemma all_not_due : forall l t, (forall k, (k < length l)%nat -> (t < P l k)%Z) ->
+  filter (due t) (keys l) = [] /\ filter (not_due t) (keys l) = keys l.
+Proof.
+  induction l as [|a r IH]; intros t H; [split; reflexivity|].
+  assert (Ha : (t < pri a)%Z) by (apply (H 0%nat); cbn; lia).
+  destruct (IH t) as [A B].
+  { intros k Hk. apply (H (S k)). cbn. lia. }
+  unfold keys in *. cbn [map filter].
+  assert (D1 : due t (key a) = false) by (unfold due, key; cbn [fst]; lia).
+  assert (D2 : not_due t (key a) = true) by (unfold not_due, key; cbn [fst]; lia).
+  rewrite D1, D2. split; [exact A | now rewrite B].
+Qed.
+
+(* never early, for ANY queue content *)
+Theorem scan_never_early : forall peek, peek_never_early peek ->
+  forall f q t out q', scan peek f q t = (out, q') -> Forall (fun x => (pri x <= t)%Z) out.
+Proof.
+  intros peek NE. induction f as [|f IH]; intros q t out q' E; cbn [scan] in E.
+  - injection E as <- <-. constructor.
+  - destruct (peek q t) as [[d|x] q1] eqn:Pk.
+    + injection E as <- <-. constructor.
+    + destruct (scan peek f q1 t) as [o q2] eqn:Sc. injection E as <- <-.
+      constructor; [apply (NE _ _ _ _ Pk) | eapply IH; eauto].
+Qed.
+
+Fixpoint sorted_from (lo : Z) (l : list item) : Prop :=
+  match l with [] => True | x :: r => (lo <= pri x)%Z /\ sorted_from (pri x) r end.
+
+(* scan-complete: on a well-formed heap one scan at t takes out exactly the entries
+   with priority <= t (as a multiset), in non-decreasing priority order, each with its
+   back-pointer reset, and leaves a well-formed heap of exactly the others *)
+Theorem scan_complete : forall peek, peek_never_early peek -> peek_spec peek ->
+  forall f q t out q', hwf q -> (length (arr q) < f)%nat -> scan peek f q t = (out, q') ->
+  Permutation (keys out) (filter (due t) (keys (arr q))) /\
+  Permutation (keys (arr q')) (filter (not_due t) (keys (arr q))) /\
+  hwf q' /\ Forall (fun x => idx x = (-1)%Z) out /\
+  (forall lo, (forall k, (k < length (arr q))%nat -> (lo <= P (arr q) k)%Z) -> sorted_from lo out).
+Proof.
+  intros peek NE PS. induction f as [|f IH]; intros q t out q' Hq Hf E; [lia|].
+  cbn [scan] in E. pose proof (PS q t Hq) as Sp.
+  destruct (peek q t) as [[d|x] q1] eqn:Pk.
+  - injection E as <- <-. destruct Sp as [-> A].
+    destruct (all_not_due (arr q) t A) as [B C]. rewrite B, C.
+    split; [apply Permutation_refl|]. split; [apply Permutation_refl|].
+    split; [exact Hq|]. split; [constructor|]. intros lo _. exact I.
+  - destruct (scan peek f q1 t) as [o q2] eqn:Sc. injection E as <- <-.
+    destruct (NE _ _ _ _ Pk) as [Le [K [I [Pm Ln]]]].
+    destruct Sp as [Hq1 Min].
+    destruct (IH q1 t o q2 Hq1 ltac:(lia) Sc) as [A [B [C [D S]]]].
+    assert (Dx : due t (key x) = true) by (unfold due, key; cbn; lia).
+    assert (Nx : not_due t (key x) = false) by (unfold not_due, key; cbn; lia).
+    split; [|split; [|split; [split|split]]].
+    + rewrite (Permutation_filter _ (due t) _ _ Pm). cbn [filter]. rewrite Dx. cbn.
+      now constructor.
+    + rewrite (Permutation_filter _ (not_due t) _ _ Pm). cbn [filter]. rewrite Nx. exact B.
+    + apply C.
+    + apply C.
+    + constructor; assumption.
+    + intros lo Hlo. cbn. split.
+      * (* x is some entry of q *)
+        assert (In (key x) (keys (arr q))) by (rewrite K; unfold keys; apply in_map;
+          unfold get; apply nth_In; lia).
+        apply In_nth with (d := key dummy) in H. destruct H as [k [Hk Ek]].
+        unfold keys in Hk. rewrite map_length in Hk. rewrite keys_nth in Ek.
+        specialize (Hlo k Hk). unfold P in Hlo. replace (pri x) with (pri (get (arr q) k)); [exact Hlo|].
+        now injection Ek.
+      * apply S. intros k Hk.
+        (* every entry of q1 is an entry of q, hence >= pri x *)
+        assert (In (key (get (arr q1) k)) (keys (arr q))).
+        { eapply Permutation_in; [apply Permutation_sym, Pm|]. right.
+          unfold keys. apply in_map. unfold get. now apply nth_In. }
+        apply In_nth with (d := key dummy) in H. destruct H as [k' [Hk' Ek']].
+        unfold keys in Hk'. rewrite map_length in Hk'. rewrite keys_nth in Ek'.
+        specialize (Min k' Hk'). unfold P in *.
+        replace (pri (get (arr q1) k)) with (pri (get (arr q) k')); [exact Min|]. now injection Ek'.
+Qed.
